@@ -244,7 +244,7 @@ class Histogram1D(ObjectWithBinning, HistogramBase):
         elif isinstance(index, slice):
             keep_missed = self.keep_missed
             # TODO: Fix this
-            if index.step:
+            if index.step is not None and index.step < 0:
                 raise IndexError("Cannot change the order of bins")
             if index.step == 1 or index.step is None:
                 underflow = self.underflow
